@@ -57,7 +57,8 @@ def case(ctx, i, tier):
     grid = [t0]
     for g in gaps:
         grid.append(grid[-1] + timedelta(seconds=g))
-    L = rng.choice([0, 0, 1, 10, 30, 59.5, 59.5, 60, 3600])
+    # (0.2, 0.7, 0.15, 59.9: fractional latencies that are not exactly representable in binary)
+    L = rng.choice([0, 0, 1, 10, 30, 59.5, 0.2, 0.7, 0.15, 59.9, 60, 3600])
     if L >= min(gaps):
         # latency >= minimum gap must be refused
         tr = Transmitter(grid)
@@ -180,7 +181,7 @@ def case(ctx, i, tier):
 
     ctx.sample = {"grid": G, "latency": L, "markov": markov, "warmup": warm, "fold": [i0, i1], "episode_length": eplen,
                   "events": [[type(e).__name__, e.uid, e.time] for e in evs][:60]}
-    others = [x for x in (0, 1, 10, 30, 59.5) if x < min(gaps) and x != L]
+    others = [x for x in (0, 1, 10, 30, 59.5, 0.2, 0.7) if x < min(gaps) and x != L]
     second_env = bool(others) and rng.random() < 0.3
     with ep.EpMonitor(sink) as epmon:
         for run_i, fold in enumerate(["training-set", "all", "training-set"] + (["all"] if second_env else [])):
